@@ -28,6 +28,13 @@ CHECKS = {
         note="Trusted: ASE Calculator.check_state/results semantics (the probe reads them instead of calling get_potential_energy, so it cannot repair a stale cache), harness calculators.",
         technique="stateless exhaustive exploration of the implementation with an independent-recomputation oracle and an evaluation counter",
     ),
+    "C09": dict(
+        category="model_checking",
+        text="For every move table of <= 3 moves over small alphabets of interval/weight/minimum count, cycles 1-4 and step numbers 0-6, every generator answer inside the real scheduling code (driven through MonteCarlo.step()) is enumerated, yielding the exact probability of every name sequence; it must agree to 1e-12 with a reference distribution (forced occupants in uniformly random distinct slots, free slots i.i.d. by weight among due moves, nothing when no move is due). add_move's over-commit refusal is enumerated over the same alphabet.",
+        design_ref="4-C09",
+        note="Trusted: the choice-point generator reproduces numpy's Generator.choice law (with/without replacement, weights). Tables outside the stated preconditions are used only for the refusal clause.",
+        technique="exhaustive enumeration of generator answers in the real scheduler, exact distribution compared with a reference model",
+    ),
 }
 
 NA_REASON = "check not built yet in this session (design in DESIGN.md); no claim is made"
